@@ -8,6 +8,7 @@ CONSTANTS
   Periodic = FALSE
   Radii = {1}
   MaxN = 3
+  OpenAxes = {}
   M = 0
 INVARIANT Subsequence
 INVARIANT InRange
